@@ -18,6 +18,11 @@ Reading guide (statement clause → theorem):
       `undecodable_payload_error`, `nil_serializer_error`, `reflect_mismatch_recovered`, `panicking_handler_error`),
       the full statement `CallWithCbCompletesOnce` is FALSE today (D11): `call_with_cb_completes_once_full_fails`,
       and `never_completed_iff_notify_shaped` shows D11 is the only way of not completing
+* "a handler that panics … completes it exactly once" (D23, fixed in /repo 7b326e6: `CallMethod`'s `handlerCB` / `panicCB`
+  around the variable `completed`) → `exec_panic_completion_iff_not_completed` (every handler behaviour, every completion
+  function), `exec_complete_then_panic_completes_once`, `exec_choking_callback_still_gets_error`,
+  `exec_completes_exactly_once_any_callback`, `panicking_handler_completes_once`; the code before the fix:
+  `prefix_panicking_handler_completions`, `prefix_complete_then_panic_completed_twice`
 * "nothing escapes as a panic" → `no_escaping_panic`
 * notify semantics → `call_without_cb_never_completes`
 * service dispatcher (actorex/service/api.go) → `dispatch_*`
@@ -176,7 +181,38 @@ theorem no_escaping_panic (fmtOK : Bool) (es : List Entry) (ser : Option Decoder
 def NamesNotify (col : Collection) (route : Bytes) : Prop :=
   ∃ h, getHandler col route = some h ∧ h.isRequest = false
 
-/-- one call through `Collection.Call` with a completion function, disciplined handler: one completion or none -/
+/-- a handler that was invoked by a call WITH a completion function is request-shaped (a notify-shaped one is D11) -/
+theorem call_invoked_with_cb_isRequest {col : Collection} {route : Bytes} {ctx : CtxArg} {arg : ArgV}
+    {h : Handler} {cs : Bool} {a : ArgV} (ho : call col route ctx arg true = .invoked h cs a) : h.isRequest = true := by
+  rw [call_eq] at ho
+  cases hg : getHandler col route with
+  | none => simp [hg] at ho
+  | some h' =>
+    simp only [hg] at ho
+    cases hr : h'.isRequest with
+    | false => simp [hr] at ho
+    | true =>
+      simp only [hr, if_true, safeCall] at ho
+      split at ho
+      · cases ho; exact hr
+      · cases ho
+
+theorem callWithSerialize_invoked_with_cb_isRequest {col : Collection} {ser : Option Decoder} {route data : Bytes}
+    {ctx : CtxArg} {h : Handler} {cs : Bool} {a : ArgV}
+    (ho : callWithSerialize col ser route ctx data true = .invoked h cs a) : h.isRequest = true := by
+  unfold callWithSerialize at ho
+  split at ho
+  · cases ho
+  · split at ho
+    · cases ho
+    · split at ho
+      · cases ho
+      · split at ho
+        · cases ho
+        · exact call_invoked_with_cb_isRequest ho
+
+/-- one call through `Collection.Call` with a completion function, disciplined handler (completes exactly once and
+then returns or panics, or panics before completing): one completion or none -/
 theorem call_completions_le_one (col : Collection) (route : Bytes) (ctx : CtxArg) (arg : ArgV) (b : Beh)
     (hb : b.disciplined = true) :
     (completions (call col route ctx arg true) true b).length =
@@ -202,11 +238,11 @@ theorem call_completions_le_one (col : Collection) (route : Bytes) (ctx : CtxArg
           · cases ho; exact hr
           · cases ho
     obtain ⟨comps, panics, bad⟩ := b
-    simp only [Beh.disciplined, Bool.or_eq_true, Bool.and_eq_true, beq_iff_eq, Bool.not_eq_true', List.isEmpty_iff] at hb
+    simp only [Beh.disciplined, Bool.or_eq_true, Bool.and_eq_true, beq_iff_eq, List.isEmpty_iff] at hb
     simp only [completions, completionsG, hreq, if_true, Bool.not_true, Bool.false_eq_true, if_false, reduceCtorEq]
-    rcases hb with ⟨hl, hp⟩ | ⟨hl, hp⟩
+    rcases hb with hl | ⟨hl, hp⟩
     · match comps, hl with
-      | [c], _ => simp [playComps, hp]
+      | [c], _ => simp [playComps]
     · subst hl; simp [playComps, hp]
 
 /-- **D11 is the only way of not completing**: with a completion function and a
@@ -357,11 +393,16 @@ theorem panicking_handler_error (h : Handler) (cs : Bool) (a : ArgV) (hreq : h.i
     completions (.invoked h cs a) true ⟨[], true, false⟩ = [.f] := by
   simp [completions, completionsG, hreq, playComps]
 
-/-- what the code does when a handler completes and THEN panics: a second
-(error) completion — outside the exactly-once guarantee (assumption `disciplined`) -/
-theorem complete_then_panic_completes_twice (h : Handler) (cs : Bool) (a : ArgV) (hreq : h.isRequest = true) :
-    completions (.invoked h cs a) true ⟨[true], true, false⟩ = [.h true, .f] := by
+/-- what the code does when a handler completes and THEN panics (since the fix of D23, /repo 7b326e6): the
+handler's completion stands, `SafeCall`'s "panic in rpc" is NOT delivered on top of it -/
+theorem complete_then_panic_completes_once (h : Handler) (cs : Bool) (a : ArgV) (hreq : h.isRequest = true) (c : Bool) :
+    completions (.invoked h cs a) true ⟨[c], true, false⟩ = [.h c] := by
   simp [completions, completionsG, hreq, playComps]
+
+/-- what the code did BEFORE that fix (`completionsGPre`): a second (error) completion -/
+theorem complete_then_panic_completes_twice (h : Handler) (cs : Bool) (a : ArgV) (hreq : h.isRequest = true) :
+    completionsGPre false (.invoked h cs a) true ⟨[true], true, false⟩ = [.h true, .f] := by
+  simp [completionsGPre, hreq, playComps]
 
 /-- **notify semantics**: without a completion function nothing is ever completed,
 whatever the route, payload, serializer and handler behaviour -/
@@ -396,7 +437,8 @@ theorem execution_refines_summary (col : Collection) (ser : Option Decoder) (rou
   callWithSerializeX_refines col ser route ctx data cb b
 
 /-- **exactly once, as a count of events**: for every list of entries, serializer (or none), route,
-context, payload and disciplined handler, if the route does not name a notify-shaped method (D11) the
+context, payload and disciplined handler — one that completes exactly once and then returns OR PANICS, or panics
+before completing — if the route does not name a notify-shaped method (D11) the
 execution invokes the completion function exactly once, runs at most one handler and does not panic -/
 theorem exec_completes_exactly_once_partial (fmtOK : Bool) (es : List Entry) (ser : Option Decoder)
     (route data : Bytes) (ctx : CtxArg) (b : Beh) (hb : b.disciplined = true)
@@ -501,46 +543,199 @@ example :
 example : callWithSerializeX (build true [eDemo]) (some (fun _ _ => .panics)) [69, 46, 74] .nil [] (some false) bOk
     = ⟨[], true⟩ := by decide
 
-/-! ### a handler that panics (the statement's fourth error case), without the discipline hypothesis -/
+/-! ### a handler that panics (the statement's fourth error case), without the discipline hypothesis
+
+`CallMethod` hands a request-shaped handler the wrapper `handlerCB` (`cbFunc(e, result); completed = true`) and
+`SafeCall`'s recover path the wrapper `panicCB` (`if !completed { cbFunc(e, result) }`) — the fix of D23,
+/repo 7b326e6.  Before it both were `cbFunc` itself (`callMethodXPre`, `completionsGPre`). -/
+
+/-- the handler's own completions that went through, and whether the handler's frame panicked (the handler itself,
+or a picky completion function inside it), for the completion function `some picky` -/
+def handlerComps (picky : Bool) (b : Beh) : List Comp := (playComps (picky && b.bad) b.comps).1
+def handlerPanicked (picky : Bool) (b : Beh) : Bool := (playComps (picky && b.bad) b.comps).2 || b.panics
+
+theorem handlerComps_byHandler (picky : Bool) (b : Beh) : ∀ c ∈ handlerComps picky b, ∃ ok, c = .h ok := by
+  unfold handlerComps
+  generalize (picky && b.bad) = p
+  induction b.comps with
+  | nil => simp [playComps]
+  | cons c r ih =>
+    simp only [playComps]
+    split
+    · simp
+    · intro x hx
+      rcases List.mem_cons.1 hx with rfl | hx
+      · exact ⟨_, rfl⟩
+      · exact ih x hx
+
+/-- **THE theorem the fix of D23 is about** — for EVERY collection, (non-panicking) serializer, route, context,
+payload, completion function (plain, or the dispatcher's picky closure) and EVERY handler behaviour (any number of
+completions, values the completion function chokes on, panicking or not): when the call reaches a handler, the
+completions of the execution are the handler's own completions that went through, followed by the framework's own
+"panic in rpc" completion `.f` **iff the handler's frame panicked and NO completion of the handler had gone through** -/
+theorem exec_panic_completion_iff_not_completed (col : Collection) (ser : Option Decoder) (route data : Bytes)
+    (ctx : CtxArg) (picky : Bool) (b : Beh) (h : Handler) (cs : Bool) (a : ArgV)
+    (hinv : callWithSerialize col ser route ctx data true = .invoked h cs a) :
+    (callWithSerializeX col (ser.map Decoder.lift) route ctx data (some picky) b).comps
+      = handlerComps picky b ++ (if handlerPanicked picky b && (handlerComps picky b).isEmpty then [.f] else []) ∧
+    (Comp.f ∈ (callWithSerializeX col (ser.map Decoder.lift) route ctx data (some picky) b).comps
+      ↔ handlerPanicked picky b = true ∧ handlerComps picky b = []) := by
+  have hr := callWithSerialize_invoked_with_cb_isRequest hinv
+  have hc : (callWithSerializeX col (ser.map Decoder.lift) route ctx data (some picky) b).comps
+      = handlerComps picky b ++ (if handlerPanicked picky b && (handlerComps picky b).isEmpty then [.f] else []) := by
+    rw [(callWithSerializeX_refines col ser route ctx data (some picky) b).2.2]
+    simp only [Option.isSome_some, hinv, completionsG, Bool.not_true, Bool.false_eq_true, if_false, hr, if_true,
+      handlerComps, handlerPanicked, cbPanicsOf]
+    cases picky <;> simp
+  refine ⟨hc, ?_⟩
+  rw [hc]
+  have hby := handlerComps_byHandler picky b
+  constructor
+  · intro hm
+    rcases List.mem_append.1 hm with h1 | h1
+    · obtain ⟨ok, hk⟩ := hby _ h1; cases hk
+    · split at h1
+      · next hcond => simpa [List.isEmpty_iff] using hcond
+      · simp at h1
+  · rintro ⟨h1, h2⟩
+    simp [h1, h2]
+
+/-- … hence **a handler that completes exactly once and then panics yields EXACTLY ONE completion, its own** (and so
+does one that completes once and returns; one that panics before completing yields exactly the framework's error) -/
+theorem exec_complete_then_panic_completes_once (col : Collection) (ser : Option Decoder) (route data : Bytes)
+    (ctx : CtxArg) (c panics : Bool) (h : Handler) (cs : Bool) (a : ArgV)
+    (hinv : callWithSerialize col ser route ctx data true = .invoked h cs a) :
+    (callWithSerializeX col (ser.map Decoder.lift) route ctx data (some false) ⟨[c], panics, false⟩).comps = [.h c] ∧
+    (callWithSerializeX col (ser.map Decoder.lift) route ctx data (some false) ⟨[], true, false⟩).comps = [.f] := by
+  constructor
+  · rw [(exec_panic_completion_iff_not_completed col ser route data ctx false ⟨[c], panics, false⟩ h cs a hinv).1]
+    simp [handlerComps, handlerPanicked, playComps]
+  · rw [(exec_panic_completion_iff_not_completed col ser route data ctx false ⟨[], true, false⟩ h cs a hinv).1]
+    simp [handlerComps, handlerPanicked, playComps]
+
+/-- **exactly once, for ANY completion function of the caller's** — plain, or one that panics on a value it cannot take
+(the dispatcher's closure; the harness drives one of its own through `CallWithSerialize` / `Call` directly): for every
+list of entries, serializer, route, context, payload and disciplined handler (completes exactly once — even with a value
+the function chokes on — and then returns or panics, or panics before completing), D11 excluded, the execution completes
+exactly once and does not panic.  (`exec_completes_exactly_once_partial` is the case `picky = false`) -/
+theorem exec_completes_exactly_once_any_callback (fmtOK : Bool) (es : List Entry) (ser : Option Decoder)
+    (route data : Bytes) (ctx : CtxArg) (picky : Bool) (b : Beh) (hb : b.disciplined = true)
+    (hn : ¬ NamesNotify (build fmtOK es) route) :
+    (callWithSerializeX (build fmtOK es) (ser.map Decoder.lift) route ctx data (some picky) b).comps.length = 1 ∧
+    (callWithSerializeX (build fmtOK es) (ser.map Decoder.lift) route ctx data (some picky) b).panicking = false := by
+  obtain ⟨r1, _, r3⟩ := callWithSerializeX_refines (build fmtOK es) ser route ctx data (some picky) b
+  have honce := call_with_cb_completes_once_partial fmtOK es ser route data ctx ⟨[true], false, false⟩ (by decide) hn
+  have hesc := (no_escaping_panic fmtOK es ser route data ctx .nil true).1
+  simp only [Option.isSome_some] at r1 r3
+  refine ⟨?_, by rw [r1]; simpa using hesc⟩
+  cases ho : callWithSerialize (build fmtOK es) ser route ctx data true with
+  | fwErr => rw [r3, ho]; simp [completionsG]
+  | recovered => rw [r3, ho]; simp [completionsG]
+  | nothing => rw [ho] at honce; simp [completions, completionsG] at honce
+  | escaped => exact absurd ho hesc
+  | invoked h cs a =>
+    rw [(exec_panic_completion_iff_not_completed _ ser route data ctx picky b h cs a ho).1]
+    obtain ⟨comps, panics, bad⟩ := b
+    simp only [Beh.disciplined, Bool.or_eq_true, Bool.and_eq_true, beq_iff_eq, List.isEmpty_iff] at hb
+    rcases hb with hl | ⟨hl, hp⟩
+    · match comps, hl with
+      | [c], _ => cases c <;> cases bad <;> cases picky <;> cases panics <;> simp [handlerComps, handlerPanicked, playComps]
+    · subst hl; simp [handlerComps, handlerPanicked, playComps, hp]
+
+/-- the first version of the fix set `completed` BEFORE calling `cbFunc`: a completion function that itself panics
+(the dispatcher's closure on a result that cannot be serialised) would then never have been completed at all.
+As the code is, a completion that did NOT go through does not count: the requester still gets the error -/
+theorem exec_choking_callback_still_gets_error (col : Collection) (ser : Option Decoder) (route data : Bytes)
+    (ctx : CtxArg) (panics : Bool) (rest : List Bool) (h : Handler) (cs : Bool) (a : ArgV)
+    (hinv : callWithSerialize col ser route ctx data true = .invoked h cs a) :
+    (callWithSerializeX col (ser.map Decoder.lift) route ctx data (some true) ⟨true :: rest, panics, true⟩).comps = [.f] := by
+  rw [(exec_panic_completion_iff_not_completed col ser route data ctx true ⟨true :: rest, panics, true⟩ h cs a hinv).1]
+  simp [handlerComps, handlerPanicked, playComps]
 
 /-- **what a panicking request handler's caller sees, exactly**: the handler's own completions (however
-many it made before panicking) followed by ONE framework error completion -/
+many it made before panicking), followed by ONE framework error completion iff it had made none -/
 theorem panicking_handler_completions (h : Handler) (cs : Bool) (a : ArgV) (hreq : h.isRequest = true) (b : Beh)
     (hp : b.panics = true) :
-    completions (.invoked h cs a) true b = b.comps.map Comp.h ++ [.f] := by
-  simp [completions, completionsG, hreq, playComps_plain, hp]
-
-/-- … so "a handler that panics → the completion function is completed exactly once" holds iff the
-handler had not completed before it panicked -/
-theorem panicking_handler_completes_once_iff (h : Handler) (cs : Bool) (a : ArgV) (hreq : h.isRequest = true) (b : Beh)
-    (hp : b.panics = true) :
-    (completions (.invoked h cs a) true b).length = 1 ↔ b.comps = [] := by
-  rw [panicking_handler_completions h cs a hreq b hp]
+    completions (.invoked h cs a) true b = b.comps.map Comp.h ++ (if b.comps = [] then [.f] else []) := by
+  simp only [completions, completionsG, hreq, playComps_plain, hp]
   cases b.comps <;> simp
 
-/-- THE FULL STATEMENT of the clause "a handler that panics … completes it exactly once" (no discipline
-hypothesis: ANY handler that panics).  FALSE for the code as it is: a handler that completes and then
-panics (nil dereference after `cb(nil, ret)`) is completed a second time by `SafeCall` with "panic in rpc";
-behind the service dispatcher the requester receives two `ServiceResponse`s for one ReqId. -/
+/-- … so "a handler that panics → the completion function is completed exactly once" holds iff the
+handler had completed AT MOST once before it panicked (before the fix of D23: iff it had not completed at all) -/
+theorem panicking_handler_completes_once_iff (h : Handler) (cs : Bool) (a : ArgV) (hreq : h.isRequest = true) (b : Beh)
+    (hp : b.panics = true) :
+    (completions (.invoked h cs a) true b).length = 1 ↔ b.comps.length ≤ 1 := by
+  rw [panicking_handler_completions h cs a hreq b hp]
+  match b.comps with
+  | [] => simp
+  | [_] => simp
+  | _ :: _ :: r => simp
+
+/-- **the clause "a handler that panics … completes it exactly once"**, for every handler that panics having itself
+completed at most once (before or not at all) — TRUE since the fix of D23, on executions, for every list of entries,
+serializer, route, context and payload (D11 excluded) -/
+theorem panicking_handler_completes_once (fmtOK : Bool) (es : List Entry) (ser : Option Decoder)
+    (route data : Bytes) (ctx : CtxArg) (b : Beh) (hp : b.panics = true) (hc : b.comps.length ≤ 1)
+    (hn : ¬ NamesNotify (build fmtOK es) route) :
+    (callWithSerializeX (build fmtOK es) (ser.map Decoder.lift) route ctx data (some false) b).comps.length = 1 := by
+  have hb : b.disciplined = true := by
+    obtain ⟨comps, panics, bad⟩ := b
+    simp only at hp hc
+    subst hp
+    match comps, hc with
+    | [], _ => simp [Beh.disciplined]
+    | [_], _ => simp [Beh.disciplined]
+  exact (exec_completes_exactly_once_partial fmtOK es ser route data ctx b hb hn).1
+
+/-- non-vacuity of `panicking_handler_completes_once` / `exec_complete_then_panic_completes_once`: `E.Join` completing
+and then panicking is ONE run and ONE completion, the handler's -/
+example :
+    callWithSerializeX (build true [eDemo]) (some decId.lift) [69, 46, 74] (.ty [1]) [7] (some false) ⟨[true], true, false⟩
+      = ⟨[.run (mkHandler 1 mJoin) true (.val [2] [7]), .cb true false], false⟩ ∧
+    callWithSerialize (build true [eDemo]) (some decId) [69, 46, 74] (.ty [1]) [7] true
+      = .invoked (mkHandler 1 mJoin) true (.val [2] [7]) := by decide
+
+/-- THE FULL STATEMENT of the clause with NO hypothesis on the handler (ANY handler that panics).  Still false, and
+`panicking_handler_completes_once_iff` says exactly why: only a handler that ITSELF invoked the completion function it
+was handed more than once (user code; nothing the framework calls) — no longer because of `SafeCall` (D23, fixed) -/
 def PanickingHandlerCompletesOnce : Prop :=
   ∀ (fmtOK : Bool) (es : List Entry) (ser : Option Decoder) (route data : Bytes) (ctx : CtxArg) (b : Beh),
     b.panics = true → ¬ NamesNotify (build fmtOK es) route →
     (callWithSerializeX (build fmtOK es) (ser.map Decoder.lift) route ctx data (some false) b).comps.length = 1
 
+theorem eDemo_join_not_notify : ¬ NamesNotify (build true [eDemo]) [69, 46, 74] := by
+  rintro ⟨h, hh, hr⟩
+  have : getHandler (build true [eDemo]) [69, 46, 74] = some (mkHandler 1 mJoin) := by decide
+  rw [this] at hh; cases hh; revert hr; decide
+
 theorem panicking_handler_completes_once_full_fails : ¬ PanickingHandlerCompletesOnce := by
   intro h
-  have hn : ¬ NamesNotify (build true [eDemo]) [69, 46, 74] := by
-    rintro ⟨h, hh, hr⟩
-    have : getHandler (build true [eDemo]) [69, 46, 74] = some (mkHandler 1 mJoin) := by decide
-    rw [this] at hh; cases hh; revert hr; decide
-  have := h true [eDemo] (some decId) [69, 46, 74] [7] (.ty [1]) ⟨[true], true, false⟩ rfl hn
+  have := h true [eDemo] (some decId) [69, 46, 74] [7] (.ty [1]) ⟨[true, true], true, false⟩ rfl eDemo_join_not_notify
   revert this
   decide
 
-/-- the same through the dispatcher: one request, two answers (a success, then an error) -/
-theorem dispatch_complete_then_panic_answers_twice :
+/-- complete-then-panic through the dispatcher: one request, ONE answer (the handler's) -/
+theorem dispatch_complete_then_panic_answers_once :
     (dispatchX ([[eDemo]].map (build true)) decId.lift [1] [69, 46, 74] [] false true ⟨[true], true, false⟩).2.comps
-      = [.h true, .f] := by decide
+      = [.h true] := by decide
+
+/-! #### the code before the fix of D23 (kept for the witness) -/
+
+/-- before the fix, EVERY panicking request handler was completed by `SafeCall` on top of whatever it had completed itself -/
+theorem prefix_panicking_handler_completions (c : Container) (m : Bytes) (ctx : CtxArg) (arg : ArgV) (b : Beh)
+    (h : Handler) (cs : Bool) (a : ArgV) (hinv : callMethod c m ctx arg true = .invoked h cs a) (hreq : h.isRequest = true)
+    (hp : b.panics = true) :
+    (callMethodXPre c m ctx arg (some false) b).comps = b.comps.map Comp.h ++ [.f] := by
+  rw [callMethodXPre_comps, hinv]
+  simp [completionsGPre, hreq, cbPanicsOf, playComps_plain, hp]
+
+/-- **D23 witness** (the behaviour `seeded/revert-D23` brings back): `E.Join` completing and then panicking was
+completed TWICE — a success followed by "panic in rpc" -/
+theorem prefix_complete_then_panic_completed_twice :
+    (callMethodXPre ⟨[69], suitable true none 1 (methodSet eDemo)⟩ [74] (.ty [1]) (.val [2] [7]) (some false)
+      ⟨[true], true, false⟩).comps = [.h true, .f] ∧
+    (callMethodX ⟨[69], suitable true none 1 (methodSet eDemo)⟩ [74] (.ty [1]) (.val [2] [7]) (some false)
+      ⟨[true], true, false⟩).comps = [.h true] := by decide
 
 /-! ### exposed but not callable -/
 
@@ -759,38 +954,15 @@ theorem dispatch_request_answered_once_partial (fmtOK : Bool) (ess : List (List 
     | escaped => exact absurd ho hesc
     | invoked h cs a =>
       obtain ⟨comps, panics, bad⟩ := b
-      simp only [Beh.disciplined, Bool.or_eq_true, Bool.and_eq_true, beq_iff_eq, Bool.not_eq_true', List.isEmpty_iff] at hb
+      simp only [Beh.disciplined, Bool.or_eq_true, Bool.and_eq_true, beq_iff_eq, List.isEmpty_iff] at hb
       intro _
-      simp only [completionsG, Bool.not_true, Bool.false_eq_true, if_false]
-      cases hr : h.isRequest with
-      | false =>
-        rcases hb with ⟨hl, hp⟩ | ⟨hl, hp⟩
-        · exfalso
-          -- an invoked notify-shaped handler with a callback is impossible
-          unfold callWithSerialize at ho
-          simp only at ho
-          split at ho
-          · cases ho
-          · split at ho
-            · cases ho
-            · split at ho
-              · cases ho
-              · rw [call_eq] at ho
-                split at ho
-                · cases ho
-                · next h' _ =>
-                  split at ho
-                  · next hreq => simp only [safeCall] at ho; split at ho
-                                 · cases ho; rw [hr] at hreq; cases hreq
-                                 · cases ho
-                  · simp at ho
-        · simp [hp]
-      | true =>
-        simp only [if_true]
-        rcases hb with ⟨hl, hp⟩ | ⟨hl, hp⟩
-        · match comps, hl with
-          | [c], _ => cases c <;> cases bad <;> simp [playComps, hp]
-        · subst hl; simp [playComps, hp]
+      -- an invoked notify-shaped handler with a callback is impossible
+      have hr : h.isRequest = true := callWithSerialize_invoked_with_cb_isRequest ho
+      simp only [completionsG, Bool.not_true, Bool.false_eq_true, if_false, hr, if_true]
+      rcases hb with hl | ⟨hl, hp⟩
+      · match comps, hl with
+        | [c], _ => cases c <;> cases bad <;> cases panics <;> simp [playComps]
+      · subst hl; simp [playComps, hp]
 
 theorem dispatch_request_answered_once_full_fails : ¬ DispatchRequestAnsweredOnce := by
   intro h
